@@ -100,7 +100,7 @@ impl Sampler for Multinomial {
         // Sample ID according to probabilities.
         //
         // `multinomial` may return None if the input contains a NaN or
-        // infinity. In that case we fall back to the ID zero.
+        // positive infinity. In that case we fall back to the ID zero.
         let idx = multinomial(&mut rng, probs).unwrap_or(0);
 
         logits.indices()[idx]
@@ -109,20 +109,28 @@ impl Sampler for Multinomial {
 
 /// Sample an item from a vector of probabilities.
 ///
-/// Returns the index of the selected item, or `None` if the vector is empty
-/// or sums to less than 1.
+/// Returns the index of the selected item. Items with a probability of zero
+/// are never selected. Returns `None` if no item has a probability greater than
+/// zero, which is the case if the vector is empty or its values are NaN.
 fn multinomial(rng: &mut fastrand::Rng, probs: &[f32]) -> Option<usize> {
     let target = rng.f32();
 
     let mut cum_prob = 0.;
+    let mut last_nonzero = None;
     for (idx, &prob) in probs.iter().enumerate() {
-        cum_prob += prob;
-        if target <= cum_prob {
-            return Some(idx);
+        if prob > 0. {
+            cum_prob += prob;
+            if target <= cum_prob {
+                return Some(idx);
+            }
+            last_nonzero = Some(idx);
         }
     }
 
-    None
+    // Due to rounding errors the probabilities may sum to slightly less than
+    // one. If the target falls into the gap, pick the last item which can be
+    // selected.
+    last_nonzero
 }
 
 #[cfg(test)]
@@ -132,7 +140,7 @@ mod tests {
     use rten_testing::TestCases;
     use rten_vecmath::Softmax;
 
-    use super::{ArgMax, Multinomial, Sampler};
+    use super::{ArgMax, Multinomial, Sampler, multinomial};
     use crate::Logits;
     use crate::generator::TokenId;
 
@@ -178,6 +186,24 @@ mod tests {
                 threshold * 100.0
             );
         }
+    }
+
+    #[test]
+    fn test_multinomial_zero_probability() {
+        // Probabilities which sum to less than one, as can happen due to
+        // rounding errors when there are many candidates.
+        let probs = [0., 0.25, 0., 0.25, 0.];
+        let mut rng = fastrand::Rng::with_seed(1234);
+        let mut counts = [0; 5];
+        for _ in 0..100 {
+            let idx = multinomial(&mut rng, &probs).unwrap();
+            counts[idx] += 1;
+        }
+        assert_eq!(counts[0] + counts[2] + counts[4], 0);
+        assert!(counts[1] > 0 && counts[3] > counts[1]);
+
+        assert_eq!(multinomial(&mut rng, &[0., 0.]), None);
+        assert_eq!(multinomial(&mut rng, &[f32::NAN, f32::NAN]), None);
     }
 
     #[test]
